@@ -1,6 +1,8 @@
 package astvalidation
 
 import (
+	"bytes"
+
 	"github.com/wundergraph/graphql-go-tools/v2/pkg/ast"
 	"github.com/wundergraph/graphql-go-tools/v2/pkg/astvisitor"
 	"github.com/wundergraph/graphql-go-tools/v2/pkg/operationreport"
@@ -13,6 +15,8 @@ func SubscriptionSingleRootField() Rule {
 		walker.RegisterEnterDocumentVisitor(&visitor)
 	}
 }
+
+var introspectionFieldPrefix = []byte("__")
 
 type subscriptionSingleRootFieldVisitor struct {
 	*astvisitor.Walker
@@ -29,6 +33,11 @@ func (s *subscriptionSingleRootFieldVisitor) EnterDocument(operation, definition
 			} else if selections == 1 {
 				ref := operation.SelectionSets[operation.OperationDefinitions[i].SelectionSet].SelectionRefs[0]
 				if operation.Selections[ref].Kind == ast.SelectionKindField {
+					// the single root field must not be an introspection field (`__typename`, `__schema`, `__type`)
+					if bytes.HasPrefix(operation.FieldNameBytes(operation.Selections[ref].Ref), introspectionFieldPrefix) {
+						subscriptionName := operation.Input.ByteSlice(operation.OperationDefinitions[i].Name)
+						s.StopWithExternalErr(operationreport.ErrSubscriptionMustNotSelectIntrospectionRootField(subscriptionName))
+					}
 					return
 				}
 			}
